@@ -109,7 +109,7 @@ Proof.
   destruct (get s t) as [x|] eqn:G; [|inversion H; subst; rewrite (get_err _ _ _ G); discriminate].
   destruct (kget name (kids x)) as [c|]; [|inversion H; discriminate].
   destruct (inval t s) as [s1|] eqn:Ei; [|inversion H; subst; eapply inval_nofuel; eauto].
-  destruct (remove_parent b s1 c t) eqn:Er; inversion H; subst. eapply remove_parent_nofuel; eauto.
+  destruct (remove_parent b s1 (self_lookup x t name c) t) eqn:Er; inversion H; subst. eapply remove_parent_nofuel; eauto.
 Qed.
 
 Lemma delitem_nofuel : forall b s p key s' e, wfp s -> delitem b s p key = (s', Some e) -> e <> EFuel.
